@@ -188,6 +188,11 @@ def insertion_cases():
            lambda t, c: (set_item(t, '_m1', q('x')), set_item(t, '_m2', u('y'))))
         mk('missing-space-in-list', ["_m3 ['a''b']"], CIF_MISSING_SPACE, lambda t, c: set_item(t, '_m3', ('list', (q('a'), q('b')))))
         if slot != 'after-loop':
+            # an opening bracket inside a white-space delimited value: the value ends there, the list is a stray value
+            mk('missing-space-before-list', ['_m4 abc[1 2]'], CIF_MISSING_SPACE, lambda t, c: set_item(t, '_m4', u('abc')))
+            # a table key outside any table: the colon is where white space is assumed; what follows is a stray value
+            mk('missing-space-at-key-colon', ["_m5 'k':v"], CIF_MISSING_SPACE, lambda t, c: set_item(t, '_m5', q('k')))
+        if slot != 'after-loop':
             mk('stray-close-bracket', [']'], CIF_UNEXPECTED_DELIM)
             mk('stray-close-brace', ['}'], CIF_UNEXPECTED_DELIM)
             mk('unexpected-value', ['stray'], CIF_UNEXPECTED_VALUE)
@@ -316,6 +321,11 @@ def structural_cases():
     c = host_content()
     set_item(block(c, 'h2'), '_ml', ('list', (u('p'),)))
     add('missing-list-close@eof', H + ['_ml [p'], CIF_MISSING_DELIM, 23, 24, c)
+    # a character that may not even start a CIF: reported as such, then accepted - what follows it on the line is a stray
+    # value (before any block header), which opens the anonymous block
+    for label, ch in (('c0', '\x01'), ('del', '\x7f'), ('nonchar', '\ufffe')):
+        c = [{'code': '', 'entries': []}] + host_content()
+        add('disallowed-initial-char-%s@start' % label, [ch + H[0]] + H[1:], CIF_DISALLOWED_INITIAL_CHAR, 1, 1, c, opts=dict(prefer_cif2=20))
     # plain host: no callback at all
     add('control-host@none', list(H), None, 0, 0, host_content())
     add('control-host-no-final-newline@none', list(H), None, 0, 0, host_content(), final_newline=False)
